@@ -284,6 +284,37 @@ class C14(Check):
                     break
             else:
                 ctx.outcome(f"{algo}:bisim:ok")
+        # ---- the same initialisation OBJECT used for two consecutive warm starts: the second run must start where the first did
+        if not fixed and case["weights"] != "none" or (not fixed and case["container"] == "object"):
+            shared = make_init(0)
+            outs = []
+            for _ in range(2):
+                np.random.seed(20260927)
+                try:
+                    if algo == "parafac":
+                        r = D.parafac(tl.tensor(X), rank, n_iter_max=1, init=shared, tol=0)
+                    elif algo == "non_negative_parafac":
+                        r = D.non_negative_parafac(tl.tensor(X), rank, n_iter_max=1, init=shared, tol=itm.TINY)
+                    elif algo == "non_negative_parafac_hals":
+                        r = D.non_negative_parafac_hals(tl.tensor(X), rank, n_iter_max=1, init=shared, tol=itm.TINY)
+                    elif algo == "constrained_parafac":
+                        r = D.constrained_parafac(tl.tensor(X), rank, n_iter_max=1, init=shared, tol_outer=0, non_negative=True, n_iter_max_inner=5)
+                    elif algo == "parafac2":
+                        r = D.parafac2(tl.tensor(X), rank, n_iter_max=1, init=shared, tol=itm.TINY, linesearch=False)
+                    elif algo == "tucker":
+                        r = D.tucker(tl.tensor(X), rank, n_iter_max=1, init=shared, tol=0)
+                    else:
+                        r = D.non_negative_tucker_hals(tl.tensor(X), rank, n_iter_max=1, init=shared, tol=0)
+                    outs.append(dense_of("cp" if algo in ("parafac", "non_negative_parafac", "non_negative_parafac_hals", "constrained_parafac") else
+                                         ("parafac2" if algo == "parafac2" else "tucker"), r))
+                except Exception as e:
+                    ctx.count(f"guarded_out:raises:{algo}:{type(e).__name__}")
+                    outs = []
+                    break
+            ctx.states += len(outs)
+            if len(outs) == 2 and (outs[0].shape != outs[1].shape or np.abs(outs[0] - outs[1]).max() > 1e-12 * scale * 10):
+                ctx.violation(f"{tag}/second-warm-start-from-the-same-init-object-differs/weights-{wclass}",
+                              f"{case}: two consecutive one-sweep runs given the very same init object differ by {np.abs(outs[0] - outs[1]).max() if outs[0].shape == outs[1].shape else 'shape'}")
         # ---- fixed modes
         if fixed:
             for k, (kind, r, init) in enumerate(chains[0]):
